@@ -17,9 +17,10 @@ long verif_live_heap(void);                                      // number of li
 void verif_note(const char* what, long v);
 uint64_t verif_concrete(uint64_t v);                             // fork over every feasible value of v
 int verif_is_replay(void);
-void* verif_alloc_page_end(size_t n, size_t dist);               // block whose end is `dist` bytes before an unmapped page
+void* verif_alloc_page_end(size_t n, size_t dist, size_t slack);  // n-byte block ending `dist` bytes before an unmapped page; `slack` (<= dist) foreign readable bytes follow it
 void verif_map_slack(const void* end, size_t k);                 // k foreign-but-mapped bytes after `end`
 void verif_check_independent(uint64_t v, const char* what);      // v must not depend on never-written memory
+void verif_check_independent_mem(const void* p, size_t n, const char* what);
 #ifdef __cplusplus
 }
 #endif
